@@ -321,7 +321,28 @@ def run(ctx):
             continue
     for pi in range(4 if quick else 40):
         try:
-            sc = LogixScenario(rng, size="medium", config=CONFIGS[(pi * ctx.nshards + ctx.shard) % len(CONFIGS)])
+            cfg_ = CONFIGS[(pi * ctx.nshards + ctx.shard) % len(CONFIGS)]
+            from vlib import refproject as rpj
+            prj_ = rpj.generate_project(rng, "medium", fw=cfg_[1], micro800=cfg_[2])
+            # two indices in one path: a BOOL-array member of an element of an array of structures (`nest_q[2].flags[40]`) - in every
+            # scenario, not only when the random project happens to contain one
+            _, nest_ = rpj.add_struct_tag(prj_, rng, "Nest_q", [("n", "INT", 0), ("flags", "DWORD", 2), ("v", "DINT", 0)], "nest_q", dims=(4,))
+            sc = LogixScenario(rng, config=cfg_, project=prj_)
+            if sc.ok():
+                picked = []
+                for _ in range(60):
+                    r = logixreq.gen_request(sc.prj, rng, sc.conn_size, tag=nest_)
+                    if "boolarr" in r.shape:
+                        picked.append(r)
+                        if len(picked) == 4:
+                            break
+                for r in picked:
+                    st, tg_ = sc.b.call("read", sc.drv.read, r.text)
+                    res.ev()
+                    res.seen("e2e-tag", r.shape, sc.label)
+                    if st != "ok" or not tg_ or not r.value_equal(tg_.value)[0]:
+                        res.violation("wrong-path:e2e:tag", f"read({r.text!r}) did not return the addressed element's value ({sc.label}): {tg_!r:.120}", {"request": r.text})
+                res.count("e2e-bool-array-member-of-a-structure-array-element", len(picked))
             if not sc.ok():
                 # the Forward Open connection path / upload requests did not denote this controller (e.g. a backplane hop sent to a Micro800)
                 res.ev()
